@@ -51,6 +51,8 @@ def op_factory(spec):
             out.append(('remove_tasks', {'tasks': [i], 'flow': []}))
             out.append(('set', {'tasks': [i], 'flow': ['all'],
                                 'outputs': ['succeeded']}))
+        # stop a flow: pooled tasks with a live job survive without it
+        out.append(('stop', {'mode': None, 'flow_num': 1}))
         return out
 
     def factory():
